@@ -130,6 +130,8 @@ def expected_for(odim, meta, empty_idxs, drop_subtotals):
 
 def _refs(odim):
     if odim.kind in ("cat", "ca_cats"):
+        if odim.var.get("flavour") == "datetime":
+            return [c["evalue"] for c in odim.valid]  # as xforms.element_refs spells them
         return list(odim.keys)
     return [it["alias"] for it in odim.var["items"]]
 
